@@ -105,6 +105,11 @@ func (j *JwtAuthenticator) authenticate(ctx context.Context, bearerToken string)
 		return nil, fmt.Errorf("invalid sub %v", sa.Sub)
 	}
 	parts := strings.Split(sa.Sub, ":")
+	// "sub" must be "system:serviceaccount:$namespace:$serviceaccount"; the prefix check above does not
+	// guarantee that the namespace and service account fields exist.
+	if len(parts) < 4 {
+		return nil, fmt.Errorf("invalid sub %v", sa.Sub)
+	}
 	ns := parts[2]
 	ksa := parts[3]
 	if !checkAudience(sa.Aud, j.audiences) {
